@@ -724,6 +724,16 @@ func c05R1Wiring(c *Ctx) {
 	if wired == 0 {
 		c.LostAnchor(R, tn+": no returned VerifyReader with a base reader")
 	}
+	// a malformed / unsupported digest must yield an error, not a panic: Digest.Verifier() panics for an unavailable
+	// algorithm, so it may only be reached behind a successful validation of the same digest
+	for _, vc := range CallsTo(fn, "(digest.Digest).Verifier") {
+		if len(vc.Common().Args) != 1 || c05FieldOfParam(vc.Common().Args[0], "Digest") != descParam {
+			continue
+		}
+		okV := MustPass(vc.(ssa.Instruction), newCut().Edges(c05ValidEdges(fn, func(v ssa.Value) bool { return c05FieldOfParam(v, "Digest") == descParam }, 0)...))
+		c.Check(R, tn+"|digest-validated-before-verifier", vc.Pos(), okV,
+			ifelse(okV, "desc.Digest.Verifier() is reached only behind a successful validation of desc.Digest", "desc.Digest.Verifier() can be reached with an unvalidated digest: an unsupported algorithm panics instead of failing the read"))
+	}
 	_ = poisoned
 }
 
@@ -1904,6 +1914,7 @@ func c05R3(c *Ctx) {
 	c05AddProvenance(c, R)
 	// (c) names under blobs/
 	c05BlobsInventory(c, R)
+	c05DigestValidated(c, R)
 }
 
 // c05MapInventory classifies every use of the sync.Map field T.field: reads
@@ -2153,6 +2164,81 @@ func c05WrapsValue(v, want ssa.Value, depth int) bool {
 		}
 	}
 	return true
+}
+
+// c05ValidEdges: the edges of fn on which the digest satisfying isD is known to be well-formed: the nil edge of
+// (digest.Digest).Validate() on it, or of an in-module helper that receives it and returns nil only behind such an edge.
+func c05ValidEdges(fn *ssa.Function, isD func(v ssa.Value) bool, depth int) []Edge {
+	var out []Edge
+	for _, call := range Calls(fn, func(string) bool { return true }) {
+		if _, isDefer := call.(*ssa.Defer); isDefer || ErrOf(call) == nil {
+			continue
+		}
+		args := call.Common().Args
+		if CalleeName(call) == "(digest.Digest).Validate" && len(args) == 1 && isD(args[0]) {
+			out = append(out, c05NilEdgesOf(call)...)
+			continue
+		}
+		h := StaticCallee(call)
+		if h == nil || !inModule(h) || len(h.Blocks) == 0 || depth >= 2 || ErrResultIndex(h.Signature) < 0 {
+			continue
+		}
+		for i, a := range args {
+			if !isD(a) || i >= len(h.Params) {
+				continue
+			}
+			p := h.Params[i]
+			sub := c05ValidEdges(h, func(v ssa.Value) bool { return c05ParamOf(v) == p }, depth+1)
+			if len(sub) == 0 || c05DeferKeepsError(h) != "" {
+				continue
+			}
+			sound := true
+			for _, at := range c05MaybeNilAtoms(h) {
+				if !c05AtomMustPass(at, newCut().Edges(sub...)) {
+					sound = false
+				}
+			}
+			if sound {
+				out = append(out, c05NilEdgesOf(call)...)
+			}
+		}
+	}
+	return out
+}
+
+// c05DigestValidated: the blob path of the OCI layout is computed from a digest only after that digest was validated
+// (algorithm AND encoded part: an unvalidated encoded part such as "../../x" names a file outside blobs/), and a digest
+// that fails validation is refused with ErrInvalidDigest.
+func c05DigestValidated(c *Ctx, R string) {
+	n := 0
+	for f := range c05BlobPathFns(c.P) {
+		if len(f.Params) != 1 || !c05IsNamedType(f.Params[0].Type(), "go-digest", "Digest") {
+			continue // wrappers delegate to a base function
+		}
+		joins := CallsTo(f, "path.Join", "path/filepath.Join")
+		if len(joins) == 0 {
+			continue
+		}
+		n++
+		p := f.Params[0]
+		valid := c05ValidEdges(f, func(v ssa.Value) bool { return c05ParamOf(v) == p }, 0)
+		ok := len(valid) > 0
+		for _, j := range joins {
+			if !MustPass(j.(ssa.Instruction), newCut().Edges(valid...)) {
+				ok = false
+			}
+		}
+		for _, a := range c05MaybeNilAtoms(f) {
+			if !c05AtomMustPass(a, newCut().Edges(valid...)) {
+				ok = false
+			}
+		}
+		c.Check(R, FnName(f)+"|digest-validated-before-path", f.Pos(), ok,
+			ifelse(ok, "the blob path is built, and success reported, only behind a successful validation of the digest", "a blob path can be built from a digest that was not (fully) validated: a crafted encoded part escapes blobs/, an unsupported algorithm is not refused"))
+	}
+	if n == 0 {
+		c.LostAnchor(R, "blob-path constructor taking a digest (validation site)")
+	}
 }
 
 // c05Creators: callees that create a name in the file system.
@@ -2582,6 +2668,8 @@ func c05ClosureErrRecorded(cl *ssa.Function, call ssa.CallInstruction, handle ss
 }
 
 var c05Mutants = []Mutant{
+	// keeps the repository's tests green: only the algorithm is checked, the encoded part is not
+	{Name: "oci-blobpath-validates-algorithm-only", File: "content/oci/readonlystorage.go", Old: "\tif err := dgst.Validate(); err != nil {\n\t\treturn \"\", fmt.Errorf(\"cannot calculate blob path from invalid digest %s: %w: %v\",\n\t\t\tdgst.String(), errdef.ErrInvalidDigest, err)\n\t}", New: "\ti := 0\n\tfor i < len(dgst) && dgst[i] != ':' {\n\t\ti++\n\t}\n\tif i == 0 || i >= len(dgst)-1 || !digest.Algorithm(dgst[:i]).Available() {\n\t\treturn \"\", fmt.Errorf(\"cannot calculate blob path from invalid digest %s: %w\",\n\t\t\tdgst.String(), errdef.ErrInvalidDigest)\n\t}", Expect: "C05.R3.who-may-publish|~/content/oci.blobPath|digest-validated-before-path"},
 	// round 4: flat `&&` guards and setter helpers are followed, not trusted
 	{Name: "verify-flat-guard-skips-length-check", File: "content/reader.go", Old: "\tif vr.err == nil {\n\t\tif vr.base.N > 0 {\n\t\t\treturn errEarlyVerify\n\t\t}\n\t} else if vr.err != io.EOF {\n\t\treturn vr.err\n\t}\n", New: "\tif vr.err == nil && vr.base.N > 0 && vr.base.N != 1 {\n\t\treturn errEarlyVerify\n\t} else if vr.err != nil && vr.err != io.EOF {\n\t\treturn vr.err\n\t}\n", Expect: "C05.R1.verify-sound|(*~/content.VerifyReader).Verify|nil-implies-length-check"},
 	{Name: "read-setter-helper-records-raw-eof", File: "content/reader.go", Old: "\t\tif err == io.EOF && vr.base.N > 0 {\n\t\t\terr = io.ErrUnexpectedEOF\n\t\t}\n\t\tvr.err = err\n\t}\n\treturn\n}\n", New: "\t\tvr.fail(err)\n\t\tif err == io.EOF && vr.base.N > 0 {\n\t\t\terr = io.ErrUnexpectedEOF\n\t\t}\n\t}\n\treturn\n}\n\nfunc (vr *VerifyReader) fail(err error) error {\n\tvr.err = err\n\treturn err\n}\n", Expect: "C05.R1.verify-sound|(*~/content.VerifyReader).Read|early-eof-not-recorded-as-eof"},
